@@ -296,7 +296,17 @@ def run(ctx):
                                       what="equivalent formulations disagree (%s): one solves every priority (%s), the other stops (%s)" % (name, ref, o))
                     continue
                 j = next((i for i, (x, y) in enumerate(zip(ref, o)) if abs(x - y) > 1e-4 * (1 + abs(x))), None) if len(ref) == len(o) else None
-                if j is not None and tref and to and len(tref) > j and len(to) > j and same_solutions([tref[j]], [to[j]]):
+                traded = False
+                if j is not None and j > 0:
+                    # the side with the better value at priority j paid for it at an earlier priority, by an amount
+                    # inside the agreement tolerance but well above rounding: both are points of the same
+                    # lexicographic problem, resolved to different solver tolerances
+                    better_is_o = o[j] < ref[j]
+                    traded = any((o[i] - ref[i] if better_is_o else ref[i] - o[i]) > 1e-7 * (1 + abs(ref[i])) for i in range(j))
+                if traded:
+                    ctx.count("pair_tolerance_trade_off")
+                    ctx.extra.setdefault("runtime_anomalies", []).append({"pair": name, "objective_values": [ref, o]})
+                elif j is not None and tref and to and len(tref) > j and len(to) > j and same_solutions([tref[j]], [to[j]]):
                     # the same trajectories (to 1e-4) with optimal values further apart: a later objective that is
                     # steep where an earlier, flat (quadratic) one is held only to the solver's tolerance - a
                     # solver-regime effect, not two different problems (DESIGN.md section 2)
